@@ -1013,3 +1013,525 @@ Proof.
   exists [false], [false], witness_process, st, 0, 0. auto.
 Qed.
 
+
+(* ------------------------------------------------------------------ after a shutdown request: the repaired clauses *)
+
+Lemma run_split st a l b st' :
+  run st (a ++ l :: b) = Some st' ->
+  exists s1 s2, run st a = Some s1 /\ step s1 l = Some s2 /\ run s2 b = Some st'.
+Proof.
+  rewrite run_app. destruct (run st a) as [s1|]; try discriminate. simpl.
+  destruct (step s1 l) as [s2|] eqn:E; try discriminate. eauto.
+Qed.
+
+Lemma run_In st sched st' l :
+  run st sched = Some st' -> In l sched ->
+  exists a b s1 s2, sched = a ++ l :: b /\ run st a = Some s1 /\ step s1 l = Some s2 /\ run s2 b = Some st'.
+Proof.
+  intros H Hin. apply in_split in Hin. destruct Hin as (a & b & ->).
+  destruct (run_split _ _ _ _ _ H) as (s1 & s2 & ? & ? & ?). exists a, b, s1, s2. auto.
+Qed.
+
+Lemma run_stable (I P : state -> Prop) :
+  (forall st l st', I st -> step st l = Some st' -> I st') ->
+  (forall st l st', I st -> P st -> step st l = Some st' -> P st') ->
+  forall sched st st', I st -> P st -> run st sched = Some st' -> I st' /\ P st'.
+Proof.
+  intros HI HP. induction sched; simpl; intros st st' Hi Hp H.
+  - inversion H; subst; auto.
+  - destruct (step st a) eqn:E; try discriminate. eapply IHsched; [| |eauto]; eauto.
+Qed.
+
+(* a shutdown() call that has taken the lock *)
+Definition past_acquire (d : dpc_t) : bool := match d with DSet | DAcquire => false | _ => true end.
+Definition closed (st : state) : Prop :=
+  exists k s, nth_error (sds st) k = Some s /\ past_acquire (dpc s) = true.
+
+Definition sd_ok (s : sd) : Prop :=
+  match dpc s with
+  | DCancel _ => swait s = false
+  | DSnap | DUnlock _ | DJoin _ => swait s = true
+  | _ => True
+  end.
+
+Record sinv (st : state) : Prop := {
+  s_flag : forall k s, nth_error (sds st) k = Some s -> dpc s <> DSet -> flag st = true;
+  s_sdok : forall k s, nth_error (sds st) k = Some s -> sd_ok s;
+  s_closed : closed st -> forall j jb, nth_error (jobs st) j = Some jb -> spc jb <> SAppend /\ spc jb <> SStart;
+  s_inreg : forall j jb, nth_error (jobs st) j = Some jb -> post_append (spc jb) = true -> In j (reg st);
+  s_join : forall k s, nth_error (sds st) k = Some s -> swait s = true ->
+             match dpc s with
+             | DUnlock pend | DJoin pend => forall j, In j (reg st) -> In j pend \/ finished st j = true
+             | DDone => forall j, In j (reg st) -> finished st j = true
+             | _ => True
+             end
+}.
+
+Lemma step_flag st l st' :
+  step st l = Some st' -> flag st' = match l with LSdSet _ => true | _ => flag st end.
+Proof.
+  destruct l; simpl; unfold on_job, on_sd; simpl; intros H; try discriminate.
+  all: step_inv; simpl; auto.
+Qed.
+
+Lemma finished_iff st j : finished st j = true <-> sets_of st j <> 0.
+Proof.
+  unfold finished, sets_of. destruct (nth_error (jobs st) j) as [jb|]; [|split; [discriminate|congruence]].
+  destruct (sets jb); simpl; split; intros; try congruence; try lia; auto.
+Qed.
+
+Lemma finished_mono st l st' j : step st l = Some st' -> finished st j = true -> finished st' j = true.
+Proof.
+  intros H Hf. apply finished_iff. apply finished_iff in Hf.
+  rewrite (step_sets _ _ _ j H). lia.
+Qed.
+
+Lemma reg_mono st l st' j : step st l = Some st' -> In j (reg st) -> In j (reg st').
+Proof.
+  intros H Hin. apply step_globals in H. destruct H as (HR & _). rewrite HR.
+  destruct l; auto. apply in_or_app; auto.
+Qed.
+
+Lemma sd_trans_past st l s s' :
+  sd_trans st l s s' ->
+  past_acquire (dpc s') = match l with LSdSet _ => false | _ => true end /\
+  match l with LSdSet _ | LSdAcquire _ => past_acquire (dpc s) = false | _ => past_acquire (dpc s) = true end.
+Proof.
+  unfold sd_trans. intros (_ & Ht). destruct l; try contradiction.
+  all: repeat match goal with
+              | H : _ /\ _ |- _ => destruct H
+              | H : exists _, _ |- _ => destruct H
+              | H : _ \/ _ |- _ => destruct H
+              end.
+  all: repeat match goal with H : dpc _ = _ |- _ => rewrite H; clear H end; simpl; auto.
+  destruct (swait s); auto.
+Qed.
+
+Lemma closed_fwd st l st' : step st l = Some st' -> closed st -> closed st'.
+Proof.
+  intros H (k & s & Hn & Hp).
+  destruct (step_sd_fwd _ _ _ _ _ H Hn) as [(Hn' & _) | (Hke & s' & Hn' & Ht)].
+  - exists k, s; auto.
+  - exists k, s'. split; auto. destruct (sd_trans_past _ _ _ _ Ht) as (Hp' & Hq).
+    rewrite Hp'. destruct l; auto; congruence.
+Qed.
+
+Definition is_sd_acquire (l : label) : bool := match l with LSdAcquire _ => true | _ => false end.
+
+Lemma closed_back st l st' :
+  step st l = Some st' -> is_sd_acquire l = false -> closed st' -> closed st.
+Proof.
+  intros H Hl (k & s' & Hn & Hp).
+  destruct (step_sd_at _ _ _ _ _ H Hn) as [(Ho & _) | (Hke & s & Ho & Ht)].
+  - exists k, s'; auto.
+  - exists k, s. split; auto. destruct (sd_trans_past _ _ _ _ Ht) as (Hp' & Hq).
+    destruct l; try discriminate; auto; congruence.
+Qed.
+
+(* the shutdown call k has taken the lock once one of its later labels has occurred *)
+Lemma step_closes st l st' k :
+  step st l = Some st' -> sd_of l = Some k -> (forall k', l <> LSdSet k') -> closed st'.
+Proof.
+  intros H Hk Hl. apply step_globals in H. destruct H as (_ & H). rewrite Hk in H.
+  destruct H as (s & s' & Hn & Hss & Ht). exists k, s'. split.
+  - rewrite Hss. apply nth_set_nth_eq. apply nth_error_Some. congruence.
+  - destruct (sd_trans_past _ _ _ _ Ht) as (Hp' & _). rewrite Hp'.
+    destruct l; auto. exfalso. eapply Hl; eauto.
+Qed.
+
+Lemma job_trans_closed l jb jb' :
+  job_trans true l jb jb' -> spc jb <> SAppend -> spc jb <> SStart ->
+  spc jb' <> SAppend /\ spc jb' <> SStart.
+Proof.
+  unfold kill. destruct jb as [t s w p e o n]; destruct l; simpl; intros Ht H1 H2; try contradiction.
+  all: try (destruct ok).
+  all: repeat match goal with H : _ /\ _ |- _ => destruct H end; subst; simpl in *.
+  all: try (destruct p; simpl in *); split; congruence.
+Qed.
+
+Lemma job_trans_post fl l jb jb' :
+  job_trans fl l jb jb' -> post_append (spc jb') = true ->
+  post_append (spc jb) = true \/ exists i, l = LSubAppend i.
+Proof.
+  unfold kill. destruct jb as [t s w p e o n]; destruct l; simpl; intros Ht Hp; try contradiction.
+  all: try (destruct ok).
+  all: repeat match goal with H : _ /\ _ |- _ => destruct H end; subst; simpl in *.
+  all: try (destruct fl; simpl in * ); try (destruct p; simpl in * ); eauto; try discriminate.
+Qed.
+
+Lemma init_sinv tmos waits : sinv (init tmos waits).
+Proof.
+  constructor; simpl.
+  - intros k s Hn Hd. apply nth_error_In, in_map_iff in Hn. destruct Hn as (x & <- & _). exfalso; apply Hd; reflexivity.
+  - intros k s Hn. apply nth_error_In, in_map_iff in Hn. destruct Hn as (x & <- & _). exact I.
+  - intros (k & s & Hn & Hp). apply nth_error_In, in_map_iff in Hn. destruct Hn as (x & <- & _). discriminate.
+  - intros j jb Hn Hp. apply nth_error_In, in_map_iff in Hn. destruct Hn as (x & <- & _). discriminate.
+  - intros k s Hn Hw. apply nth_error_In, in_map_iff in Hn. destruct Hn as (x & <- & _). exact I.
+Qed.
+
+Lemma closed_flag st : sinv st -> closed st -> flag st = true.
+Proof.
+  intros S (k & s & Hn & Hp). eapply s_flag; eauto. intros Hd. rewrite Hd in Hp. discriminate.
+Qed.
+
+(* while some shutdown call has the lock behind it, the registry does not change any more *)
+Lemma reg_same_if_closed st l st' : sinv st -> closed st -> step st l = Some st' -> reg st' = reg st.
+Proof.
+  intros S C H. pose proof (step_globals _ _ _ H) as (HR & _). rewrite HR.
+  destruct l; auto. apply step_jobs in H. simpl in H. destruct H as (jb & jb' & Hn & _ & Hs & _).
+  destruct (s_closed _ S C _ _ Hn) as (Hx & _). congruence.
+Qed.
+
+Lemma step_sinv st l st' : ginv st -> sinv st -> step st l = Some st' -> sinv st'.
+Proof.
+  intros G S H.
+  pose proof (step_flag _ _ _ H) as HF.
+  pose proof (step_globals _ _ _ H) as (HR & _).
+  constructor.
+  - (* s_flag *)
+    intros k s' Hn Hd. destruct (step_sd_at _ _ _ _ _ H Hn) as [(Ho & _) | (Hke & s & Ho & Ht)].
+    + rewrite HF. destruct l; auto; eapply s_flag; eauto.
+    + rewrite HF. destruct (sd_trans_past _ _ _ _ Ht) as (_ & Hq).
+      destruct l; auto; eapply (s_flag _ S _ _ Ho); intros Hd0; rewrite Hd0 in Hq; try discriminate.
+      destruct Ht as (_ & (Hx & _)). congruence.
+  - (* s_sdok *)
+    intros k s' Hn. destruct (step_sd_at _ _ _ _ _ H Hn) as [(Ho & _) | (Hke & s & Ho & Ht)].
+    + eapply s_sdok; eauto.
+    + pose proof (s_sdok _ S _ _ Ho) as Hok. unfold sd_ok in *. destruct Ht as (Hw & Ht).
+      destruct l; try contradiction.
+      all: repeat match goal with
+                  | H : _ /\ _ |- _ => destruct H
+                  | H : exists _, _ |- _ => destruct H
+                  | H : _ \/ _ |- _ => destruct H
+                  end.
+      all: repeat match goal with H : dpc _ = _ |- _ => rewrite H in *; clear H end; simpl; auto; try congruence.
+      destruct (swait s) eqn:E; simpl; congruence.
+  - (* s_closed *)
+    intros C j jb' Hn. destruct (is_sd_acquire l) eqn:El.
+    + destruct l; try discriminate.
+      pose proof (step_lock_owner _ _ _ G H) as HL. simpl in HL. destruct HL as (Hfree & _).
+      pose proof (step_jobs _ _ _ H) as HJ. simpl in HJ. rewrite HJ in Hn.
+      split; intros Hs; pose proof (g_hold _ G _ _ Hn) as Hh; rewrite Hs in Hh;
+        specialize (Hh eq_refl); congruence.
+    + pose proof (closed_back _ _ _ H El C) as C0.
+      destruct (step_job_at _ _ _ _ _ H Hn) as [(Ho & _) | (Hje & jb & Ho & Ht)].
+      * eapply s_closed; eauto.
+      * rewrite (closed_flag _ S C0) in Ht. destruct (s_closed _ S C0 _ _ Ho).
+        eapply job_trans_closed; eauto.
+  - (* s_inreg *)
+    intros j jb' Hn Hp. destruct (step_job_at _ _ _ _ _ H Hn) as [(Ho & _) | (Hje & jb & Ho & Ht)].
+    + eapply reg_mono; eauto. eapply s_inreg; eauto.
+    + destruct (job_trans_post _ _ _ _ Ht Hp) as [Hp0 | (i & ->)].
+      * eapply reg_mono; eauto. eapply s_inreg; eauto.
+      * simpl in Hje. inversion Hje; subst. rewrite HR. apply in_or_app. right. simpl; auto.
+  - (* s_join *)
+    intros k s' Hn Hw. destruct (step_sd_at _ _ _ _ _ H Hn) as [(Ho & _) | (Hke & s & Ho & Ht)].
+    + pose proof (s_join _ S _ _ Ho Hw) as Hj.
+      destruct (dpc s') eqn:Ed; auto.
+      all: assert (C : closed st) by (exists k, s'; rewrite Ed; auto);
+           rewrite (reg_same_if_closed _ _ _ S C H); intros j Hin; specialize (Hj j Hin).
+      * destruct Hj; auto. right. eapply finished_mono; eauto.
+      * destruct Hj; auto. right. eapply finished_mono; eauto.
+      * eapply finished_mono; eauto.
+    + pose proof (s_sdok _ S _ _ Ho) as Hok. unfold sd_ok in Hok.
+      destruct Ht as (Hsw & Ht). rewrite Hsw in Hw. pose proof (s_join _ S _ _ Ho Hw) as Hj.
+      destruct l; try contradiction; simpl in HR.
+      * (* set *) destruct Ht as (_ & ->). exact I.
+      * (* acquire *) destruct Ht as (_ & ->). rewrite Hw. exact I.
+      * (* cancel *) destruct Ht as (p0 & p1 & _ & _ & ->). exact I.
+      * (* snap *) destruct Ht as (_ & ->). rewrite HR. intros j Hin. auto.
+      * (* release *) destruct Ht as (pend & Hd & ->). rewrite Hd in Hj. rewrite HR.
+        intros j Hin. destruct (Hj j Hin); auto. right. eapply finished_mono; eauto.
+      * (* join *) destruct Ht as (j0 & rest & Hd & Hf & ->). rewrite Hd in Hj. rewrite HR.
+        intros j Hin. destruct (Hj j Hin) as [[->|Hr]|Hfin]; auto; right; eapply finished_mono; eauto.
+      * (* return *) destruct Ht as ([Hd|Hd] & ->); rewrite Hd in *.
+        -- congruence.
+        -- rewrite HR. intros j Hin. destruct (Hj j Hin) as [[]|Hfin]. eapply finished_mono; eauto.
+Qed.
+
+Definition inv (st : state) : Prop := ginv st /\ sinv st.
+
+Lemma init_inv tmos waits : inv (init tmos waits).
+Proof. split; [apply init_ginv | apply init_sinv]. Qed.
+
+Lemma step_inv_pres st l st' : inv st -> step st l = Some st' -> inv st'.
+Proof. intros (G & S) H. split; [eapply step_ginv | eapply step_sinv]; eauto. Qed.
+
+Lemma run_inv sched : forall st st', inv st -> run st sched = Some st' -> inv st'.
+Proof.
+  induction sched; simpl; intros st st' I H.
+  - inversion H; subst; auto.
+  - destruct (step st a) eqn:E; try discriminate. eapply IHsched; [|eauto]. eapply step_inv_pres; eauto.
+Qed.
+
+Lemma run_closed sched : forall st st', closed st -> run st sched = Some st' -> closed st'.
+Proof.
+  induction sched; simpl; intros st st' C H.
+  - inversion H; subst; auto.
+  - destruct (step st a) eqn:E; try discriminate. eapply IHsched; [|eauto]. eapply closed_fwd; eauto.
+Qed.
+
+(* (1) once any shutdown() call -- of either kind -- has taken the lock, no job is registered
+   or accepted any more *)
+Lemma closed_after tmos waits pre st l0 k :
+  run (init tmos waits) pre = Some st -> In l0 pre -> sd_of l0 = Some k -> (forall k', l0 <> LSdSet k') ->
+  inv st /\ closed st.
+Proof.
+  intros H Hin Hk Hl. split; [eapply run_inv; [apply init_inv|eauto]|].
+  destruct (run_In _ _ _ _ H Hin) as (a & b & s1 & s2 & -> & Ha & Hs & Hb).
+  eapply run_closed; [|eauto]. eapply step_closes; eauto.
+Qed.
+
+Lemma no_accept_after_lock tmos waits pre l post st k :
+  run (init tmos waits) (pre ++ l :: post) = Some st -> In (LSdAcquire k) pre ->
+  forall j, l <> LSubAppend j /\ l <> LSubStart j.
+Proof.
+  intros H Hin j. destruct (run_split _ _ _ _ _ H) as (s1 & s2 & Ha & Hs & _).
+  destruct (closed_after _ _ _ _ _ k Ha Hin eq_refl) as ((G & S) & C); [discriminate|].
+  split; intros ->; apply step_jobs in Hs; simpl in Hs; destruct Hs as (jb & jb' & Hn & _ & Hx & _);
+    destruct (s_closed _ S C _ _ Hn); congruence.
+Qed.
+
+Lemma no_accept_after_shutdown tmos waits sched st :
+  run (init tmos waits) sched = Some st -> ~ accepted_after_return sched.
+Proof.
+  intros H (pre & post & j & k & -> & Hin).
+  destruct (run_split _ _ _ _ _ H) as (s1 & s2 & Ha & Hs & _).
+  destruct (closed_after _ _ _ _ _ k Ha Hin eq_refl) as ((G & S) & C); [discriminate|].
+  apply step_jobs in Hs; simpl in Hs; destruct Hs as (jb & jb' & Hn & _ & Hx & _).
+  destruct (s_closed _ S C _ _ Hn); congruence.
+Qed.
+
+(* (2) shutdown(wait=True): when it has returned every job ever accepted is delivered, exactly
+   once, and no solver process runs -- and none will: nothing is accepted any more *)
+Lemma run_swait sched : forall st st', run st sched = Some st' -> map swait (sds st') = map swait (sds st).
+Proof.
+  induction sched; simpl; intros st st' H.
+  - inversion H; subst; auto.
+  - destruct (step st a) eqn:E; try discriminate. rewrite (IHsched _ _ H).
+    apply step_globals in E. destruct E as (_ & E). destruct (sd_of a).
+    + destruct E as (s0 & s1 & Hn & -> & (Hw & _)). clear - Hn Hw.
+      revert n Hn; induction (sds st); destruct n; simpl; intros Hn; try discriminate; auto.
+      * inversion Hn; subst. congruence.
+      * f_equal. eauto.
+    + rewrite E; auto.
+Qed.
+
+Lemma swait_of tmos waits sched st k s :
+  run (init tmos waits) sched = Some st -> nth_error (sds st) k = Some s -> nth_error waits k = Some (swait s).
+Proof.
+  intros H Hn. apply run_swait in H. simpl in H. rewrite map_map in H. simpl in H. rewrite map_id in H.
+  rewrite <- H. apply map_nth_error; auto.
+Qed.
+
+Lemma job_running_registered st j jb :
+  inv st -> nth_error (jobs st) j = Some jb -> wpc jb <> WNew -> In j (reg st).
+Proof.
+  intros (G & S) Hn Hw. eapply s_inreg; eauto.
+  pose proof (Forall_nth _ _ _ _ (g_jobs _ G) Hn) as Hok. unfold job_ok, started_spc in Hok.
+  destruct (wpc jb); try congruence; intuition (subst; try match goal with H : spc jb = _ |- _ => rewrite H end; auto).
+Qed.
+
+Lemma finished_not_running st j jb :
+  inv st -> nth_error (jobs st) j = Some jb -> finished st j = true -> sets jb = 1 /\ proc jb <> PRun.
+Proof.
+  intros (G & S) Hn Hf. apply finished_iff in Hf. unfold sets_of in Hf. rewrite Hn in Hf.
+  pose proof (Forall_nth _ _ _ _ (g_jobs _ G) Hn) as Hok. unfold job_ok in Hok.
+  destruct (wpc jb); intuition congruence.
+Qed.
+
+Lemma wait_shutdown_complete tmos waits sched st k :
+  run (init tmos waits) sched = Some st -> nth_error waits k = Some true -> returned st k = true ->
+  forall j, running st j = false /\ (accepted j sched -> deliveries j sched = 1).
+Proof.
+  intros H Hw Hr j.
+  assert (I : inv st) by (eapply run_inv; [apply init_inv|eauto]).
+  unfold returned in Hr. destruct (nth_error (sds st) k) as [s|] eqn:Hn; try discriminate.
+  destruct (dpc s) eqn:Hd; try discriminate.
+  pose proof (swait_of _ _ _ _ _ _ H Hn) as Hw'. rewrite Hw in Hw'. inversion Hw' as [Hsw].
+  destruct I as (G & S). pose proof (s_join _ S _ _ Hn (eq_sym Hsw)) as Hj. rewrite Hd in Hj.
+  split.
+  - unfold running. destruct (nth_error (jobs st) j) as [jb|] eqn:Hjb; auto.
+    destruct (proc jb) eqn:Hp; auto. exfalso.
+    assert (Hreg : In j (reg st)).
+    { apply (job_running_registered st j jb (conj G S) Hjb).
+      pose proof (Forall_nth _ _ _ _ (g_jobs _ G) Hjb) as Hok. unfold job_ok in Hok.
+      intros Hwn. rewrite Hwn in Hok. intuition congruence. }
+    destruct (finished_not_running st j jb (conj G S) Hjb (Hj _ Hreg)) as (_ & Hx). congruence.
+  - intros Hacc. unfold accepted in Hacc.
+    destruct (run_In _ _ _ _ H Hacc) as (a & b & s1 & s2 & -> & Ha & Hs & Hb).
+    assert (Rg : registered s2 j).
+    { apply step_jobs in Hs. simpl in Hs. destruct Hs as (jb & jb' & Hn0 & Hjs & _ & _ & ->).
+      eexists. split; [rewrite Hjs; apply nth_set_nth_eq; apply nth_error_Some; congruence|reflexivity]. }
+    assert (Rg' : registered st j).
+    { clear - Rg Hb. revert s2 Rg Hb. induction b; simpl; intros s2 Rg Hb.
+      - inversion Hb; subst; auto.
+      - destruct (step s2 a) eqn:E; try discriminate. eapply IHb; [|eauto]. eapply registered_step; eauto. }
+    destruct Rg' as (jb & Hjb & Hp).
+    pose proof (s_inreg _ S _ _ Hjb Hp) as Hreg.
+    destruct (finished_not_running st j jb (conj G S) Hjb (Hj _ Hreg)) as (Hs1 & _).
+    pose proof (run_sets _ _ _ j H) as Hsets. rewrite init_sets in Hsets.
+    unfold sets_of in Hsets. rewrite Hjb in Hsets. lia.
+Qed.
+
+(* (3) shutdown(wait=False) / cancel(): a solver process that existed when the cancel task
+   for its job ran is dead afterwards, for good *)
+Definition spawned_b (jb : job) : bool := match wpc jb with WNew | WStarted => false | _ => true end.
+Definition spawned_at (st : state) (j : nat) : Prop :=
+  exists jb, nth_error (jobs st) j = Some jb /\ spawned_b jb = true.
+Definition settled_at (st : state) (j : nat) : Prop :=
+  exists jb, nth_error (jobs st) j = Some jb /\ spawned_b jb = true /\ proc jb <> PRun.
+
+Lemma job_trans_spawned fl l jb jb' :
+  job_trans fl l jb jb' -> spawned_b jb = true ->
+  spawned_b jb' = true /\ (proc jb <> PRun -> proc jb' <> PRun) /\
+  (match l with LSdCancel _ _ => proc jb' <> PRun | _ => True end).
+Proof.
+  unfold kill, spawned_b. destruct jb as [t s w p e o n]; destruct l; simpl; intros Ht Hs; try contradiction.
+  all: try (destruct ok).
+  all: repeat match goal with H : _ /\ _ |- _ => destruct H end; subst; simpl in *; try discriminate.
+  all: try (destruct p; simpl in * ); repeat split; auto; try congruence.
+Qed.
+
+Lemma spawned_step st l st' j : step st l = Some st' -> spawned_at st j -> spawned_at st' j.
+Proof.
+  intros H (jb & Hn & Hs). destruct (step_job_fwd _ _ _ _ _ H Hn) as [(Hn' & _) | (_ & jb' & Hn' & Ht)].
+  - exists jb; auto.
+  - exists jb'. split; auto. apply (job_trans_spawned _ _ _ _ Ht Hs).
+Qed.
+
+Lemma settled_step st l st' j : step st l = Some st' -> settled_at st j -> settled_at st' j.
+Proof.
+  intros H (jb & Hn & Hs & Hp). destruct (step_job_fwd _ _ _ _ _ H Hn) as [(Hn' & _) | (_ & jb' & Hn' & Ht)].
+  - exists jb; auto.
+  - exists jb'. split; auto. destruct (job_trans_spawned _ _ _ _ Ht Hs) as (A & B & _). auto.
+Qed.
+
+Lemma cancel_settles st k j st' : step st (LSdCancel k j) = Some st' -> spawned_at st j -> settled_at st' j.
+Proof.
+  intros H (jb & Hn & Hs). destruct (step_job_fwd _ _ _ _ _ H Hn) as [(_ & Hne) | (_ & jb' & Hn' & Ht)].
+  - simpl in Hne. congruence.
+  - exists jb'. split; auto. destruct (job_trans_spawned _ _ _ _ Ht Hs) as (A & _ & C). auto.
+Qed.
+
+Lemma run_settled sched : forall st st' j, settled_at st j -> run st sched = Some st' -> settled_at st' j.
+Proof.
+  induction sched; simpl; intros st st' j S H.
+  - inversion H; subst; auto.
+  - destruct (step st a) eqn:E; try discriminate. eapply IHsched; [|eauto]. eapply settled_step; eauto.
+Qed.
+
+Lemma run_spawned sched : forall st st' j, spawned_at st j -> run st sched = Some st' -> spawned_at st' j.
+Proof.
+  induction sched; simpl; intros st st' j S H.
+  - inversion H; subst; auto.
+  - destruct (step st a) eqn:E; try discriminate. eapply IHsched; [|eauto]. eapply spawned_step; eauto.
+Qed.
+
+Lemma settled_not_running st j : settled_at st j -> running st j = false.
+Proof. intros (jb & Hn & _ & Hp). unfold running. rewrite Hn. destruct (proc jb); auto. congruence. Qed.
+
+Lemma spawned_after_popen st st' pre j :
+  run st pre = Some st' -> In (LPopen j true) pre -> spawned_at st' j.
+Proof.
+  intros H Hin. destruct (run_In _ _ _ _ H Hin) as (a & b & s1 & s2 & -> & Ha & Hs & Hb).
+  eapply run_spawned; [|eauto]. apply step_jobs in Hs. simpl in Hs.
+  destruct Hs as (jb & jb' & Hn & Hjs & _ & ->). eexists. split.
+  - rewrite Hjs. apply nth_set_nth_eq. apply nth_error_Some. congruence.
+  - reflexivity.
+Qed.
+
+Lemma cancel_kills tmos waits sched st j :
+  run (init tmos waits) sched = Some st -> cancelled_while_spawned j sched -> running st j = false.
+Proof.
+  intros H (pre & post & k & -> & Hin).
+  destruct (run_split _ _ _ _ _ H) as (s1 & s2 & Ha & Hs & Hb).
+  apply settled_not_running. eapply run_settled; [|eauto].
+  eapply cancel_settles; eauto. eapply spawned_after_popen; eauto.
+Qed.
+
+(* ... and shutdown() has run such a cancel task for every process that existed when it took
+   the lock, by the time it returns (either kind of shutdown) *)
+Definition nowait_inv (k j : nat) (st : state) : Prop :=
+  exists s, nth_error (sds st) k = Some s /\
+    match dpc s with
+    | DCancel pend => In j pend \/ settled_at st j
+    | DDone => swait s = false /\ settled_at st j
+    | _ => False
+    end.
+
+Lemma remove1_other j0 j l l' : remove1 j0 l = Some l' -> In j l -> j <> j0 -> In j l'.
+Proof.
+  revert l'; induction l; simpl; intros l' H Hin Hne; try contradiction.
+  destruct (Nat.eqb_spec a j0).
+  - inversion H; subst. destruct Hin; auto. congruence.
+  - destruct (remove1 j0 l) eqn:E; try discriminate. inversion H; subst.
+    destruct Hin as [->|Hin]; [left; auto | right; eauto].
+Qed.
+
+Lemma nowait_inv_step st l st' k j :
+  sinv st -> step st l = Some st' -> spawned_at st j -> nowait_inv k j st -> nowait_inv k j st'.
+Proof.
+  intros S H Sp (s & Hn & Hm). unfold nowait_inv.
+  destruct (step_sd_fwd _ _ _ _ _ H Hn) as [(Hn' & _) | (Hke & s' & Hn' & (Hsw & Ht))].
+  - exists s. split; auto. destruct (dpc s); auto.
+    + destruct Hm; auto. right. eapply settled_step; eauto.
+    + destruct Hm. split; auto. eapply settled_step; eauto.
+  - exists s'. split; auto. pose proof (s_sdok _ S _ _ Hn) as Hok. unfold sd_ok in Hok.
+    destruct l; try contradiction.
+    + destruct Ht as (Hd & _). rewrite Hd in Hm. contradiction.
+    + destruct Ht as (Hd & _). rewrite Hd in Hm. contradiction.
+    + (* cancel k j0 *)
+      simpl in Hke. inversion Hke; subst k0.
+      destruct Ht as (pend & pend' & Hd & Hrm & Hd'). rewrite Hd in Hm, Hok. rewrite Hd'.
+      destruct Hm as [Hin | Hst]; [|right; eapply settled_step; eauto].
+      destruct (Nat.eq_dec j j0) as [->|Hne].
+      * right. eapply cancel_settles; eauto.
+      * left. eapply remove1_other; eauto.
+    + destruct Ht as (Hd & _). rewrite Hd in Hm. contradiction.
+    + destruct Ht as (pend & Hd & _). rewrite Hd in Hm. contradiction.
+    + destruct Ht as (j0 & rest & Hd & _). rewrite Hd in Hm. contradiction.
+    + (* return *)
+      destruct Ht as ([Hd|Hd] & Hd'); rewrite Hd in Hm, Hok; rewrite Hd'.
+      * destruct Hm as [[]|Hst]. split; [congruence|]. eapply settled_step; eauto.
+      * contradiction.
+Qed.
+
+Lemma shutdown_kills_spawned tmos waits sched st k j :
+  run (init tmos waits) sched = Some st -> spawned_before_acquire k j sched ->
+  returned st k = true -> running st j = false.
+Proof.
+  intros H (pre & post & -> & Hin) Hr.
+  destruct (run_split _ _ _ _ _ H) as (s1 & s2 & Ha & Hs & Hb).
+  assert (I1 : inv s1) by (eapply run_inv; [apply init_inv|eauto]).
+  assert (Sp1 : spawned_at s1 j) by (eapply spawned_after_popen; eauto).
+  pose proof (step_globals _ _ _ Hs) as (_ & HG). simpl in HG.
+  destruct HG as (s & s' & Hn & Hss & Hsw & Hd & Hd').
+  destruct (swait s) eqn:Ew.
+  - (* wait=True: nothing runs at all after the return *)
+    assert (Hw : nth_error waits k = Some true).
+    { rewrite <- Ew. eapply swait_of; eauto. }
+    apply (wait_shutdown_complete _ _ _ _ _ H Hw Hr j).
+  - (* wait=False *)
+    assert (I2 : inv s2) by (eapply step_inv_pres; eauto).
+    assert (Sp2 : spawned_at s2 j) by (eapply spawned_step; eauto).
+    assert (N2 : nowait_inv k j s2).
+    { exists s'. split; [rewrite Hss; apply nth_set_nth_eq; apply nth_error_Some; congruence|].
+      rewrite Hd'. left. destruct Sp1 as (jb & Hjb & Hsp).
+      eapply job_running_registered; eauto. unfold spawned_b in Hsp. destruct (wpc jb); congruence. }
+    assert (Hend : inv st /\ (spawned_at st j /\ nowait_inv k j st)).
+    { eapply (run_stable inv (fun x => spawned_at x j /\ nowait_inv k j x)); eauto.
+      - intros; eapply step_inv_pres; eauto.
+      - intros x l x' (Gx & Sx) (A & B) Hx. split; [eapply spawned_step; eauto|eapply nowait_inv_step; eauto]. }
+    destruct Hend as (_ & _ & (sf & Hnf & Hm)).
+    unfold returned in Hr. rewrite Hnf in Hr. destruct (dpc sf); try discriminate.
+    apply settled_not_running. apply Hm.
+Qed.
+
+(* (4) shutdown() never terminates with an exception *)
+Lemma shutdown_never_raises tmos waits sched st k :
+  run (init tmos waits) sched = Some st -> ~ shutdown_raised k sched.
+Proof.
+  intros H Hin. destruct (run_In _ _ _ _ H Hin) as (a & b & s1 & s2 & _ & _ & Hs & _).
+  simpl in Hs. discriminate.
+Qed.
